@@ -401,8 +401,9 @@ pub fn table(rng: &mut Rng, count: u64, emit: Emit) {
 }
 
 pub fn random_text(rng: &mut Rng) -> String {
-    let atoms: [&str; 62] = ["wire", "const", "register", "in", "x", "foo_1", "Stat", "pc", "é", "ñame", "Ω", "a\u{301}", "_t", "0", "1", "42", "0x1F", "0xff", "0b101", "0b", "0x",
+    let atoms: [&str; 68] = ["wire", "const", "register", "in", "x", "foo_1", "Stat", "pc", "é", "ñame", "Ω", "a\u{301}", "_t", "0", "1", "42", "0x1F", "0xff", "0b101", "0b", "0x",
         "0b102", "12ab", "1x5", "7b101", "340282366920938463463374607431768211455", "340282366920938463463374607431768211456", "0xffffffffffffffffffffffffffffffffg",
+        "\u{b2}", "\u{663}", "\u{bd}", "1\u{b2}", "x\u{b2}", "\u{2167}",
         "=", "==", "!=", "<", "<=", "<<", ">", ">=", ">>", "&", "&&", "|", "||", "^", "~", "!", "+", "-", "*", "/", "(", ")", "[", "]", "{", "}", ":", ";", ",", "..", ".", "#c\n", "// c\n", "/* c */"];
     let extras: [&str; 14] = [" ", " ", "\n", "\r\n", "\t", "/*", "*/", "/*/", "**/", "$", "@", "\u{2028}", "\u{a0}", "\u{3000}"];
     let n = rng.range(0, 30);
@@ -623,7 +624,7 @@ pub fn diag(rng: &mut Rng, count: u64, emit: Emit) {
             }
         };
         let base: [&str; 8] = ["wire a : 8;", "a = 1;", "wire b : 4;", "b = 2;", "pc = 0;", "Stat = STAT_AOK;", "wire c : 8;", "c = a;"];
-        let kind = rng.below(14);
+        let kind = rng.below(20);
         let indent: String = " ".repeat(rng.below(5) as usize);
         let lead: &str = *rng.pick(&["", "", "a = 1; ", "/* c */ "][..]);
         // (fault line, column of the offending span within the line, its length, kind name, line replaced or inserted)
@@ -640,6 +641,12 @@ pub fn diag(rng: &mut Rng, count: u64, emit: Emit) {
             8 => { let l = format!("{}c = [ a == 1 : a; 1 : b; ];", indent); (l, indent.len() + 22, 1, "case-width-mismatch", Some("c = a;")) }
             11 => { let l = format!("{}c = 0x100000000000000000000000000000000;", indent); (l, indent.len() + 4, 35, "too-wide-literal", Some("c = a;")) }
             12 => { let l = format!("{}register qR {{ v : 8 = 0b101; }}", indent); (l, indent.len() + 22, 5, "register-default-width", None) }
+            13 => { let l = format!("{}c = (a .. 0xA5)[0..8];", indent); (l, indent.len() + 10, 4, "concat-right-unsized", Some("c = a;")) }
+            14 => { let l = format!("{}c = (0xA5 .. a)[0..8];", indent); (l, indent.len() + 5, 4, "concat-left-unsized", Some("c = a;")) }
+            15 => { let l = format!("{}c = [ a && 1 : 1; 1 : 2 ];", indent); (l, indent.len() + 6, 1, "non-boolean-operand", Some("c = a;")) }
+            16 => { let l = format!("{}c = a[4..20];", indent); (l, indent.len() + 4, 8, "bit-index-out-of-range", Some("c = a;")) }
+            17 => { let l = format!("{}c = (b == a);", indent); (l, indent.len() + 5, 1, "compare-width-mismatch", Some("c = a;")) }
+            18 => { let l = format!("{}c = (a ..\n{}       0xA5)[0..8];", indent, indent); (l, indent.len() * 2 + 17, 4, "concat-second-line", Some("c = a;")) }
             9 => { let l = format!("{}zz = 1;", indent); (l, indent.len(), 2, "undeclared-assigned", None) }
             _ => { let l = format!("{}c = a[4..2];", indent); (l, indent.len() + 4, 7, "bad-slice", Some("c = a;")) }
         };
@@ -702,8 +709,8 @@ pub fn anytext(rng: &mut Rng, count: u64, emit: Emit) {
     use hclrs::{parse_y86_hcl, FileContents};
     use std::panic::{catch_unwind, AssertUnwindSafe};
     let pre = hclrs::verif_hooks::y86_preamble();
-    let toks: [&str; 40] = ["wire", "const", "register", "in", "x", "pc", "Stat", "=", "==", ";", ":", ",", "(", ")", "[", "]", "{", "}", "..",
-        "+", "-", "*", "/", "&&", "||", "!", "~", "<", ">>", "0", "1", "0b101", "0x1f", "8", "é", "€", "/*", "*/", "#", "\""];
+    let toks: [&str; 43] = ["wire", "const", "register", "in", "x", "pc", "Stat", "=", "==", ";", ":", ",", "(", ")", "[", "]", "{", "}", "..",
+        "+", "-", "*", "/", "&&", "||", "!", "~", "<", ">>", "0", "1", "0b101", "0x1f", "8", "é", "€", "/*", "*/", "#", "\"", "\u{b2}", "\u{663}", "\u{bd}"];
     for _ in 0..count {
         let mode = rng.below(9);
         let mut bytes: Vec<u8> = if mode == 0 { random_text(rng).into_bytes() } else if mode == 8 {
